@@ -1,19 +1,23 @@
 """C05 - WAL crash recovery restores exactly the acknowledged rows.
 
 Proof: coq/theories/Recovery (Model, Proofs, Props, Obligations).
-  C05_replay_equals_live   replay (wal_entry w) re-buffers exactly the rows the live path buffered,
-                           for every buffer write of the guarded class, every variant, every clock
-  C05_crash_any_point      invariant over ALL histories / crash points: every acknowledged+persisted
-                           row is stored after the next startup (code as it is: unless a process dies
-                           while replayed rows are unflushed)
-  C05_*_refuted            witnesses of the classes the code as it is gets wrong
-  Obligations              the same at ArcGen.Params_Recovery.deployed = the variant the CURRENT
-                           source implements (eight repair sites recognised in the source each run)
-Tie: a test file overlaid into package main of cmd/arc drives the REAL handlers, wal.Writer,
-ArrowBuffer, wal.Recovery and the two recovery callbacks of main.go (startup statements copied
-verbatim from the current main.go) through generated histories with crashes; every status,
-permission check, number of WAL files left and every stored row is compared with the model
-inside Coq; the property oracle is evaluated on the implementation's rows.
+  PRIMARY - the code as it is now (all recovery repairs applied), Obligations.v at
+  ArcGen.Params_Recovery.deployed (the variant recognised in the CURRENT source each run):
+    C05_deployed_replay_rows / _raw   replay (wal_entry w) = live w for EVERY buffer write with a time
+                                      column, one kind per column and clean strings - no column name,
+                                      timestamp or measurement-id restriction left
+    C05_deployed_crash_any_point      ALL histories, EVERY crash point, unconditionally
+    C05_deployed_rejected_write_harmless
+  and their variant-generic forms in Props.v part I (C05_repaired_*, C05_crash_any_point_repaired).
+  SECONDARY - all variants (guards grow as repair flags are switched off) and the refutations of the
+  old variants (C05_*_refuted); a reverted repair flips its flag, breaks the unguarded obligation and
+  the witness of the matching refutation is the concrete failing input.
+Tie: a test file overlaid into package main of cmd/arc drives the REAL handlers (one keep-alive
+connection per process), wal.Writer (optionally held across following requests), ArrowBuffer,
+wal.Recovery and the two recovery callbacks of main.go (startup statements copied verbatim from the
+current main.go) through generated histories with crashes; every status, permission check, number
+of WAL files left and every stored row is compared with the model inside Coq; the property oracle
+is evaluated on the implementation's rows.
 """
 import glob
 import json
@@ -238,7 +242,8 @@ PROFILES = [dict(name="clean", routing_p=0.0, wild_ts=False, mixed_p=0.0, int_m_
             dict(name="wild", routing_p=0.0, wild_ts=True, mixed_p=0.0, int_m_p=0.0, crash_in_recovery=False),
             dict(name="all", routing_p=0.3, wild_ts=True, mixed_p=0.2, int_m_p=0.3, crash_in_recovery=True),
             dict(name="recovery-crash", routing_p=0.0, wild_ts=False, mixed_p=0.0, int_m_p=0.0, crash_in_recovery=True),
-            dict(name="wire", routing_p=0.1, wild_ts=False, mixed_p=0.0, int_m_p=0.1, crash_in_recovery=False, wire_p=0.7, dup_p=0.3)]
+            dict(name="wire", routing_p=0.1, wild_ts=False, mixed_p=0.0, int_m_p=0.1, crash_in_recovery=False, wire_p=0.7, dup_p=0.3,
+                 nested_p=0.05)]
 
 
 def nontrivial(case):
@@ -390,7 +395,7 @@ def run(res, tier, seed):
         "profiles": prof,
         "events": {k: sum(1 for i in supported for e in cases[i]["events"] if e["op"] == k) for k in ("start", "write", "persist", "flush", "recover", "crash")},
         "requests": {k: sum(1 for i in supported for e in cases[i]["events"] if e["op"] == "write" and (e["req"]["kind"] if e["req"]["kind"] == "lp" else e["req"].get("shape", "msg")) == k)
-                     for k in ("lp", "col", "row", "batch", "array")},
+                     for k in ("lp", "col", "row", "batch", "array", "nested")},
         "held_writer_lifetimes": sum(1 for i in supported for e in cases[i]["events"] if e["op"] == "start" and e.get("hold")),
         "kills_inside_recovery": sum(sum(1 for k in obs[i]["crashed"] if k) for i in supported),
         "acks": {str(k): sum(1 for i in supported for a in obs[i]["acks"] if a == k) for k in (200, 204, 400, 403, 500)},
